@@ -379,9 +379,13 @@ class BaseGeo(BaseTransform):
         for k, v in kwargs.items():
             if k.startswith("style"):
                 style_kwargs[k] = v
-            else:
+            elif k != "parent":
                 setattr(obj_copy, k, v)
         if style_kwargs:
             style_kwargs = self._process_style_kwargs(**style_kwargs)
             obj_copy.style.update(style_kwargs)
+        if "parent" in kwargs:
+            # the finished copy joins its new parent last: a rejected override must not
+            # leave a half-made copy in the collection
+            obj_copy.parent = kwargs["parent"]
         return obj_copy
